@@ -32,7 +32,9 @@ func relayPayload(seed int64, id string, n int, rng *rand.Rand) []byte {
 		out = append(out, h[:]...)
 	}
 	out = out[:n]
-	switch rng.Intn(5) {
+	switch rng.Intn(6) {
+	case 5: // begins with the STUN magic cookie: bytes 4..7 of a ChannelData frame that carries it are a STUN message's
+		copy(out, []byte{0x21, 0x12, 0xa4, 0x42})
 	case 0: // looks like a STUN header
 		copy(out, []byte{0x00, 0x01, 0x00, 0x08, 0x21, 0x12, 0xa4, 0x42})
 	case 1: // looks like a ChannelData header
